@@ -13,9 +13,9 @@ RULE = ('random op sequences on one repacketizer (init / cat / out / out_range /
         'pad / unpad / multistream pad / unpad (1..8 streams, in place) for new_len = len-1, len, len+1..3, +250..260, up to '
         '+1500; a case is distinct by its (op, outcome kind) class')
 NOT_COVERED = [
-    'packets whose padding carries extensions, and extensions passed to out_range_impl / pad_impl: the theorems assume the '
-    'extension-free case (every stored padding has opus_packet_extensions_count = 0, e.g. no padding or zero padding); '
-    'extension carriage is tied differentially (S3) and searched (S4, with C16) only',
+    'extension carriage is proved for gathered lists in C16\'s NoRepeat class (out_roundtrip_ext_partial) and for paddings that carry '
+    'nothing / are malformed (out_malformed_padding_dropped); lists on which the generator uses its repeat mechanism, and the exact '
+    'size clauses of pad/unpad/pad_impl for packets with extensions, are tied differentially (S3) and searched (S4) only',
     'in-place operation of opus_packet_pad/unpad and the multistream variants (source and destination overlap, OPUS_MOVE '
     'order): the model reads frames from owned copies; in-place calls are compared byte for byte by the tie and run under ASan',
     'pad_same_decode (same decoded audio and final range for x and pad x): not a theorem (needs the decoder skeleton of C01); '
@@ -32,12 +32,14 @@ REQUIRED_THEOREMS = [
     'OpusProps.C07.out_1277_suffices',
     'OpusProps.C07.pad_spec', 'OpusProps.C07.pad_rejects', 'OpusProps.C07.unpad_spec', 'OpusProps.C07.unpad_canonical',
     'OpusProps.C07.unpad_idempotent', 'OpusProps.C07.unpad_pad', 'OpusProps.C07.emitted_padding_ext_free', 'OpusProps.C07.ms_unpad_spec', 'OpusProps.C07.ms_pad_spec',
+    'OpusProps.C07.out_roundtrip_ext_partial', 'OpusProps.C07.out_malformed_padding_dropped',
 ]
 UNPROVED = [
     'pad_same_decode (decoder skeleton calls identical for x and pad x, hence same audio and final range): needs the C01 decoder '
     'skeleton; only searched on the implementation (S4 decodes x and pad x on a quarter of the pad cases)',
-    'out_roundtrip_ext / extension carriage (P1): with extensions in the stored paddings or passed to out_range_impl the emitted '
-    'packet is only tied (S3) and searched (S4: frames still parse back byte for byte; C16 checks the extensions)',
+    'out_roundtrip_ext (full): out_roundtrip_ext_partial without the hypothesis NoRepeat, i.e. also when opus_packet_extensions_generate '
+    'uses its repeat mechanism (ID 2) for the gathered list; missing only C16\'s generate->parse round trip through repeats '
+    '(generate_parse_full, in progress); until then that case is tied (S3) and searched (S4 clause out-extensions)',
     'in-place safety (P1): packetPad/packetUnpad on one byte array with the copy-then-memmove order equals the pure version — not modelled',
     'int_ranges: every intermediate fits opus_int32 / the opus_int16 len[] stores are lossless (model uses unbounded Int; sizes <= 1275 and '
     'nb_frames <= 48 are proved, so sums are < 2^17 whenever maxlen < 2^31)',
@@ -132,7 +134,7 @@ def search(ctx):
             'oracle': 'cat accepted iff parse ok, TOC-compatible and <= 120 ms; rejected cat leaves nb_frames and out() unchanged; '
                       'out/out_range output parses back to the selected frames byte for byte with the same config bits; exact size '
                       'suffices and reproduces the packet, exact size - 1 gives BUFFER_TOO_SMALL, no write past maxlen, <= 1277 per '
-                      'frame; invalid ranges give BAD_ARG; pad gives exactly new_len with the same frames (and same decode / final '
+                      'frame; invalid ranges give BAD_ARG; the extensions read from the output padding are, per frame and in order, the caller\'s plus those of the selected frames renumbered, payloads identical; pad gives exactly new_len with the same frames (and same decode / final '
                       'range on a subsample); unpad <= len, same frames, idempotent, unpad(pad x) = unpad x; multistream per stream',
             'samples': samples, 'witnesses': wit}
 
